@@ -177,7 +177,22 @@ func c02BaseDoc(f string) ([]byte, string, error) {
 		b, err := zipOf(ms)
 		return b, ".xlsx", err
 	case "pptx":
-		b, err := zipOf(pptxMembers())
+		ms := pptxMembers()
+		// a richer slide: bulleted and numbered paragraphs with levels, and a table with spanning cells
+		for i := range ms {
+			if ms[i].name == "ppt/slides/slide1.xml" {
+				ms[i].data = strings.Replace(ms[i].data, `</p:txBody></p:sp>`,
+					`<a:p><a:pPr lvl="1"><a:buChar char="-"/></a:pPr><a:r><a:t>item 1</a:t></a:r></a:p>`+
+						`<a:p><a:pPr lvl="2"><a:buAutoNum type="arabicPeriod"/></a:pPr><a:r><a:t>item 2</a:t></a:r></a:p>`+
+						`<a:p><a:pPr lvl="3"/><a:r><a:t>item 3</a:t></a:r></a:p></p:txBody></p:sp>`+
+						`<p:graphicFrame><p:nvGraphicFramePr><p:cNvPr id="4" name="Tbl"/><p:cNvGraphicFramePr/><p:nvPr/></p:nvGraphicFramePr><p:xfrm><a:off x="0" y="0"/><a:ext cx="100" cy="100"/></p:xfrm>`+
+						`<a:graphic><a:graphicData uri="http://schemas.openxmlformats.org/drawingml/2006/table"><a:tbl><a:tblGrid><a:gridCol w="100"/><a:gridCol w="100"/><a:gridCol w="100"/></a:tblGrid>`+
+						`<a:tr h="10"><a:tc gridSpan="2" rowSpan="2"><a:txBody><a:bodyPr/><a:p><a:r><a:t>a 3</a:t></a:r></a:p></a:txBody></a:tc><a:tc hMerge="1"><a:txBody><a:bodyPr/><a:p/></a:txBody></a:tc><a:tc><a:txBody><a:bodyPr/><a:p><a:r><a:t>b</a:t></a:r></a:p></a:txBody></a:tc></a:tr>`+
+						`<a:tr h="10"><a:tc vMerge="1"><a:txBody><a:bodyPr/><a:p/></a:txBody></a:tc><a:tc hMerge="1" vMerge="1"><a:txBody><a:bodyPr/><a:p/></a:txBody></a:tc><a:tc><a:txBody><a:bodyPr/><a:p><a:r><a:t>d 4</a:t></a:r></a:p></a:txBody></a:tc></a:tr>`+
+						`</a:tbl></a:graphicData></a:graphic></p:graphicFrame>`, 1)
+			}
+		}
+		b, err := zipOf(ms)
 		return b, ".pptx", err
 	case "epub":
 		b, err := zipOf(epubMembers(epubCfg{}))
